@@ -80,6 +80,8 @@ func cmdFn(args []string) int {
 		case "--timeout":
 			i++
 			fmt.Sscanf(args[i], "%d", &timeout)
+		case "--macro":
+			specMacroMode = true
 		}
 	}
 	prog, err := LoadProg([]string{pkg})
@@ -93,17 +95,27 @@ func cmdFn(args []string) int {
 		fmt.Fprintf(os.Stderr, "no contract file for %s\n", path)
 		return 2
 	}
-	fc := cf.Funcs[name]
-	if fc == nil {
-		fmt.Fprintf(os.Stderr, "no contract for %s\n", name)
-		return 2
+	var vc *VC
+	if strings.HasPrefix(name, "lemma:") {
+		l := cf.Lemmas[strings.TrimPrefix(name, "lemma:")]
+		if l == nil {
+			fmt.Fprintf(os.Stderr, "no lemma %s\n", name)
+			return 2
+		}
+		vc = GenLemma(prog, prog.SSAPkgs[path], l, "lemma."+l.Name)
+	} else {
+		fc := cf.Funcs[name]
+		if fc == nil {
+			fmt.Fprintf(os.Stderr, "no contract for %s\n", name)
+			return 2
+		}
+		fn := prog.FindFunc(path, name)
+		if fn == nil {
+			fmt.Fprintf(os.Stderr, "function %s not found\n", name)
+			return 2
+		}
+		vc = GenFunc(prog, fn, fc)
 	}
-	fn := prog.FindFunc(path, name)
-	if fn == nil {
-		fmt.Fprintf(os.Stderr, "function %s not found\n", name)
-		return 2
-	}
-	vc := GenFunc(prog, fn, fc)
 	for _, e := range vc.errs {
 		fmt.Println("ERROR:", e)
 	}
@@ -152,6 +164,6 @@ func cmdFn(args []string) int {
 	return 0
 }
 
-func cmdCheck(args []string) int    { fmt.Println("not implemented yet"); return 2 }
+
 func cmdSelftest(args []string) int { fmt.Println("not implemented yet"); return 2 }
-func cmdReplay(args []string) int   { fmt.Println("not implemented yet"); return 2 }
+
